@@ -53,12 +53,13 @@ def pest_only_build(timeout=900):
     return rc, out, os.path.join(tdir, "release")
 
 
-def run_cases(hbin, runner, cmds):
-    outs = run_pipeline(["%s %s | %s" % (hbin, c, runner) for c in cmds])
+def run_cases(hbin, runner, cmds, timeout=3600):
+    outs = run_pipeline(["%s %s | %s" % (hbin, c, runner) for c in cmds], timeout=timeout)
     mism, stats = [], {}
     for rc, out in outs:
         m, s, other = parse_runner_output(out)
-        if rc != 0 or "mismatches" not in s:
+        hung = any(x["impl"].startswith("HANG") for x in m)
+        if (rc != 0 or "mismatches" not in s) and not hung:
             mism.append({"kind": "harness", "case": "", "impl": "pipeline failed rc=%s" % rc, "expected": out[-500:]})
         mism += m
         for k, v in s.items():
@@ -90,7 +91,11 @@ def minimise(hbin, runner, case, kind):
         return case
     head, maps, decl, toks = f
 
+    deadline = time.time() + 100      # a hanging parser costs 5 s per probe (watchdog): bound the shrinking
+
     def ok(d, t):
+        if time.time() > deadline:
+            return False
         return bool(d) and disagrees(hbin, runner, ";".join([head, maps, d, t]), kind)[0]
 
     changed = True
@@ -200,7 +205,7 @@ def run(tier, seed, replay=None):
     cmds += ["exh %d %d %d %d %d" % (nops, len_all, len_wf, i, shards) for i in range(shards)]
     cmds += ["exh %d %d %d %d %d %d" % (big[0], big[1], big[2], i, shards, big[0]) for i in range(shards)]
     cmds += ["random %d %d %d" % (rcount, seed * 1000 + i, len_wf + 1) for i in range(nrand)]
-    mism, stats = run_cases(hbin, runner, cmds)
+    mism, stats = run_cases(hbin, runner, cmds, timeout=150 if tier == "quick" else 2400)
 
     spec_m = [m for m in mism if m["kind"] == "spec"]
     model_m = [m for m in mism if m["kind"] == "model"]
@@ -226,7 +231,7 @@ def run(tier, seed, replay=None):
                        "case": small, "impl": d["impl"], "model": d["expected"], "minimised_from": worst["case"],
                        "searched": stats, "legend": LEGEND},
                       no_failing_input=True)
-    for m in other_m:
+    for m in other_m[:1]:
         res.violation("harness failure: " + m["impl"], {"theorem_or_correspondence": "C13 correspondence (run)", "log": m["expected"]}, no_failing_input=True)
     if not thm["ok"]:
         res.violation("proof obligation no longer checks: " + "; ".join(thm["problems"]),
